@@ -213,7 +213,7 @@ func checkC17(c *core.Ctx, l *core.Ledger) {
 	}
 	// who writes the files map of Generate: only addFile (via generate closure / mergeFiles)
 	for _, f := range c.AllFuncs("gen") {
-		if c.IsTestFile(f.Pos()) || f.Name() == "addFile" {
+		if c.IsTestFile(f.Pos()) || c.Named(f, "addFile") {
 			continue
 		}
 		core.Instrs(f, func(in ssa.Instruction) {
@@ -348,7 +348,7 @@ func checkC17(c *core.Ctx, l *core.Ledger) {
 			// directly or through a helper that succeeds only after one of them did
 			edges := core.CallGuardEdgesDeep(f, func(call *ssa.Call) bool {
 				cal := call.Call.StaticCallee()
-				return cal != nil && core.PkgRel(cal) == "" && (cal.Name() == "verifyAncestry" || cal.Name() == "findCommonAncestor")
+				return cal != nil && core.PkgRel(cal) == "" && c.Named(cal, "verifyAncestry", "findCommonAncestor")
 			}, 2)
 			if len(edges) == 0 || !core.AllPathsThroughEdges(f, genCall.Block(), edges) {
 				ok, why = false, "generation can start without a verified or computed Thrift root"
